@@ -55,9 +55,9 @@ theorem export_mechanism :
       [("type", "reflect.TypeOf(internalField).Elem().Name()"),
        ("prefix", "spec.Pref.Inspect()"),
        ("enc.key", "reflect.TypeOf(enc).Elem().Name()"),
-       ("enc.name", "e := EncodingsIntToExt[encType]"),
+       ("enc.name", "EncodingsIntToExt[encType]"),
        ("pad.key", "reflect.TypeOf(pad).Elem().Name()"),
-       ("pad.name", "padder := PaddersIntToExt[paddingType]"),
+       ("pad.name", "PaddersIntToExt[paddingType]"),
        ("pad.pad", "string(pad.Inspect())"),
        ("sort", "getFunctionName(tag.Sort)"),
        ("sort.name", "path.Ext(funcPath)[1:]")] := by
